@@ -612,6 +612,46 @@ Definition out_kr_gen (out : Z) (fixed : list arg) (output : arg) : M arg :=
 Definition out_kr (out : Z) (bus output : arg) : M arg :=
   multi_new (new1_plain out 1) (bus :: as_list output).
 
+(* ---- conversion of a signal input to audio rate -------------------------------------------- *)
+(* ugen_param(x)._as_audio_rate_input(), used by the .ar constructors of the delay-line family
+   (DelayN/L/C, CombN/L/C, AllpassN/L/C, BufDelay*, BufComb*, BufAllpass*, DelTapWr) BEFORE they
+   hand their arguments to _multi_new:
+     UGenScalar   (numbers, bools):  0 -> Silent.ar() = DC.ar(0);  v -> DC.ar(v)   (one DC unit, its proxy)
+     UGen / OutputProxy:             audio rate -> itself;  otherwise K2A.ar(self)
+     UGenString / UGenNone ...:      rate is not 'audio' -> K2A.ar(value)
+     UGenSequence (list AND tuple):  the same conversion of EVERY element, in order, recursively,
+                                     in a sequence of the same type -- an element's conversion does
+                                     not depend on its neighbours *)
+Section AudioIn.
+  Variables dc k2a : Z.      (* class ids of DC and K2A at audio rate *)
+  Fixpoint as_audio (a : arg) : M arg :=
+    match a with
+    | Scalar (K z) => multi_new (new1_plain dc 1) [Scalar (K z)]
+    | Scalar (U u c) =>
+      fun st => match unit_rate st u with
+                | RAudio => Ok a st
+                | _ => multi_new (new1_plain k2a 1) [a] st
+                end
+    | Scalar (Str _) => multi_new (new1_plain k2a 1) [a]
+    | Tuple l =>
+      bind ((fix go (l : list arg) : M (list arg) :=
+               match l with
+               | [] => ret []
+               | x :: r => bind (as_audio x) (fun x' => bind (go r) (fun r' => ret (x' :: r')))
+               end) l) (fun l' => ret (Tuple l'))
+    | Lst l =>
+      bind ((fix go (l : list arg) : M (list arg) :=
+               match l with
+               | [] => ret []
+               | x :: r => bind (as_audio x) (fun x' => bind (go r) (fun r' => ret (x' :: r')))
+               end) l) (fun l' => ret (Lst l'))
+    end.
+  (* Cls.ar( *before, input, *after):  input = as_audio_rate_input(input);
+     cls._multi_new('audio', *before, input, *after) *)
+  Definition audio_in_ctor (cls : Z) (before : list arg) (input : arg) (after : list arg) : M arg :=
+    bind (as_audio input) (fun inp => multi_new (new1_plain cls 1) (before ++ inp :: after)).
+End AudioIn.
+
 (* _replace_zeroes_with_silence as a pure function of the uid [n] of the next unit: the result
    and the uid after it.  One DC unit per list reached through lists, numbered in pre-order. *)
 Fixpoint rzp (n : nat) (a : arg) : arg * nat :=
